@@ -1803,7 +1803,10 @@ class Engine:
                         elems.append(z)
                         continue
                     self.guard = And(gi, inb)
-                    v = self.slice_get(s, bv(i))
+                    try:
+                        v = self.slice_get(s, bv(i))
+                    except DeadPath:
+                        v = z   # beyond the backing array: cannot be inside the slice
                     self.guard = gi
                     elems.append(ite(inb, v, z))
                 else:
